@@ -471,6 +471,7 @@ def state_replay(ctx, meta):
            'objective_calls_compared': sum(len(c['expected']['args']) for n, c in enumerate(cases) if n in verdict),
            'records_compared': sum(len(c['expected']['dumps']) + 1 for n, c in enumerate(cases) if n in verdict)}
     ctx.cov['state_replay'] = cov
+    focused = 0
     for o in OPTS:
         if o not in per_opt:
             continue
@@ -481,9 +482,11 @@ def state_replay(ctx, meta):
         ctx.oblige('T2 state replay: the IR semantics of prog_%s executed inside Coq on the recorded oracle reproduces the implementation '
                    '(objective arguments and values, every record, final population) on %d runs' % (o, len(per_opt[o])), not bad,
                    '%d of %d runs disagree: %s' % (len(bad), len(per_opt[o]), detail))
-        if bad:
+        if bad and focused < 4:
             # as for a rejected trace: let the run monitor search for a concrete violation of this property on that optimizer; if it
-            # finds none the broken obligation stands (no-failing-input-found)
+            # finds none the broken obligation stands (no-failing-input-found).  A change outside the optimizers (e.g. in a space's
+            # check_limits) makes most programs disagree at once: the focused search is limited to the first four of them.
+            focused += 1
             monitor_data(ctx, focus=o)
     ctx.count(evaluations=len(verdict), nontrivial=sum(1 for n in verdict if len(cases[n]['oracle']) > 0))
     ctx.trust('state replay (harness/t2state.py): the oracle is read off the running implementation by AST instrumentation placed by T2\'s '
